@@ -23,6 +23,11 @@ func owns(prop, oracle string) bool {
 		// stack of the slots at that moment (a version built on a stale slot is
 		// an update installed although its real stack may have been rejected)
 		return oracle == "C05.stale-slot" || oracle == "C05.fresh-stack" || oracle == "C05.model"
+	case "C07":
+		// "when stacking or verification of that value fails, it returns that
+		// error and the view is unchanged": a nil return with an unverified
+		// version installed is that clause broken
+		return oracle == "C04.visible-unverified"
 	case "C09":
 		// "OnWatchedError ... withheld only while the delay is in force and the
 		// suppress option is set": rejections after enabling must be delivered
@@ -407,6 +412,9 @@ func (r *Run) staleSlots(pos map[uint64]progPos) {
 		}
 	}
 	for _, op := range r.ops {
+		if op.Src >= len(r.sc.Sources) {
+			continue // (a run without any source)
+		}
 		if init := r.sc.Sources[op.Src].Init; init != nil && init.ID == op.PartID {
 			continue // the initial value was in its slot from the start, whenever it is reported again
 		}
